@@ -30,7 +30,7 @@ func TestVerif(t *testing.T) {
 			"memory stores on both sides so every shared object is a scheduler object",
 		},
 		Jobs:           jobs,
-		BudgetQuick:    200,
+		BudgetQuick:    300,
 		BudgetThorough: 1500,
 	})
 }
